@@ -79,6 +79,10 @@ def gen_traj_data(seed, n, profile):
         pos[i] = p
         quat[i] = q
         ts[i] = t
+    if profile.get("qround"):
+        # orientations as they come out of a text log with 6-7 decimals: unit
+        # length only to ~1e-7 (still valid for evo's own check())
+        quat = np.round(quat, profile["qround"])
     tz = profile.get("tzero")
     if tz == "first":
         ts = ts - ts[0]  # zero-based time, first stamp exactly 0.0
@@ -176,7 +180,11 @@ class Machine:
         # cache of that view cannot be repaired by reading another view first
         vals = {}
         c = copy.deepcopy(obj)
-        if int(_read_view(c, "num_poses")) == 0:
+        try:
+            n_first = int(_read_view(c, "num_poses"))
+        except Exception as e:  # noqa
+            raise ViewUnreadable("num_poses", e)
+        if n_first == 0:
             # an empty trajectory (legal result of an empty crop interval) is
             # only asked for its count: evo's other views are not defined on
             # it in every cache state (DESIGN 4.4 / 6)
